@@ -7,7 +7,7 @@ from .. import shape
 from ..flow import call_name, dotted, norm, writes_in
 from ..index import AnalysisError, walk_local
 from ..lib import defs_of
-from .C07 import _flow_into, _m, _reaches, _rm
+from .C07 import _alternatives, _flow_into, _m, _reaches, _rm, _selected_by
 
 FP = "pint.delegates.formatter.plain"
 FL = "pint.delegates.formatter.latex"
@@ -42,6 +42,21 @@ LAYOUT = {
 MODS = {"DefaultFormatter": FP, "CompactFormatter": FP, "PrettyFormatter": FP, "RawFormatter": FP, "HTMLFormatter": FH, "LatexFormatter": FL, "SIunitxFormatter": FL}
 IFACE = ("format_magnitude", "format_unit", "format_quantity", "format_uncertainty", "format_measurement")
 
+
+
+def _digit_to_superscript_patterns(loop):
+    """For a loop that pairs every decimal digit with its entry of _PRETTY_EXPONENTS - `for d in range(10)` (or
+    range(len(table))) with table[d], `for d, p in enumerate(table)`, `for ch, p in zip('0123456789', table)` - the
+    patterns of the rewrite `_S.replace(<digit text>, <superscript>)` in terms of the loop's own variables; [] otherwise."""
+    t, it = loop.target, loop.iter
+    names = [e.id for e in t.elts] if isinstance(t, ast.Tuple) and all(isinstance(e, ast.Name) for e in t.elts) else None
+    if isinstance(t, ast.Name) and norm(it) in ("range(10)", "range(len(_PRETTY_EXPONENTS))"):
+        return [f"_S.replace(str({t.id}), _PRETTY_EXPONENTS[{t.id}])"]
+    if names and len(names) == 2 and _m(it, "enumerate(_PRETTY_EXPONENTS)") is not None:
+        return [f"_S.replace(str({names[0]}), {names[1]})", f"_S.replace(str({names[0]}), _PRETTY_EXPONENTS[{names[0]}])"]
+    if names and len(names) == 2 and _m(it, "zip('0123456789', _PRETTY_EXPONENTS)") is not None:
+        return [f"_S.replace({names[0]}, {names[1]})"]
+    return []
 
 
 def _formatter_operands(call):
@@ -190,10 +205,10 @@ def run(ck, ix, tier):
     flow = _flow_into(f.node, sinks)
     minus = any(_reaches(c, f.node, sinks, flow) for c in walk_local(f.node) if isinstance(c, ast.Call) and _m(c, "_S.replace('-', '⁻')") is not None)
     digits = False
-    for loop in [l for l in walk_local(f.node) if isinstance(l, ast.For) and isinstance(l.target, ast.Name) and norm(l.iter) in ("range(10)", "range(len(_PRETTY_EXPONENTS))")]:
-        d = loop.target.id
+    for loop in [l for l in walk_local(f.node) if isinstance(l, ast.For)]:
+        pats = _digit_to_superscript_patterns(loop)
         for a in [a for st in loop.body for a in ast.walk(st) if isinstance(a, ast.Assign) and len(a.targets) == 1 and isinstance(a.targets[0], ast.Name)]:
-            b = _m(a.value, f"_S.replace(str({d}), _PRETTY_EXPONENTS[{d}])")
+            b = _m(a.value, *pats) if pats else None
             digits = digits or (b is not None and b["_S"] == a.targets[0].id and a.targets[0].id in flow)
     ck.check(minus and digits, "G-TABLE", "pretty_fmt_exponent|minus-and-digits", f.loc(),
              "minus -> ⁻, digit n -> n-th superscript, for all ten digits", "pretty_fmt_exponent no longer maps '-' to '⁻' and each of the ten digits to its superscript")
@@ -282,9 +297,10 @@ def run(ck, ix, tier):
     # where the unit string is known to start with '1 / ', what is joined is the unit string without its first two characters;
     # elsewhere the unit string itself
     starts = lambda a: _m(a, "ustr.startswith('1 / ')") is not None
-    joins = [(r, _rm(r.value, f.node, "joint_fstring.format(mstr, _U)")) for r in shape.returns_of(f.node)]
-    joins = [(r, b["_U"]) for r, b in joins if b is not None]
-    okj = any(u == "ustr[2:]" for _, u in joins) and all((u == "ustr[2:]" and shape.holds_at(r, f.node, starts, True)) or (u == "ustr" and shape.holds_at(r, f.node, starts, False)) for r, u in joins)
+    # (the unit operand of every join, with the conditions under which each of its alternatives is taken)
+    joins = [c for r in shape.returns_of(f.node) for c in [shape.unalias(r.value, f.node)] if isinstance(c, ast.Call) and _m(c, "joint_fstring.format(mstr, _U)") is not None]
+    alts = [alt for c in joins for alt in _alternatives(c.args[1], f.node)]
+    okj = bool(alts) and _selected_by(alts, starts, lambda x: _m(x, "ustr[2:]") is not None, lambda x: _m(x, "ustr") is not None)
     ck.check(okj, "G-TABLE", "join_mu|drops-placeholder-numerator", f.loc(), "`3` and `1 / m` become `3 / m`", "join_mu no longer drops the '1' placeholder of an empty numerator")
     pc = ix.func("pint.delegates.formatter._compound_unit_helpers", "prepare_compount_unit")
     ck.analysed(pc)
